@@ -53,6 +53,26 @@ CHECKS = {
    note="Trusted: as C04; Instant::now() inside the engine cannot be injected, so network activity is always at harness time ~0 while tick times are virtual; tokio interval regularity is a premise; heartbeats under an encrypted framer are C18's subject, the io_uring backend's tick source C20's.",
    technique="Coq proof: case analysis of the timed decision rule, run-level invariants by induction over input histories; differential correspondence with virtual tick times",
    design="6/C19"),
+ "C01": dict(
+   text="Coq proofs that every stage of a connection is an order-preserving, loss-free, duplication-free list transducer, for every size mix, limit and schedule: session batch assembly (`batch ++ carry' ++ pipe' = carry ++ pipe`, lifted to any number of cycles; oldest message always progresses), EgressBuffer under arbitrary partial writes (bytes written are a prefix of a layout keeping data chunks in push order with priority chunks only on chunk boundaries), IngressDriver with cancellation at every await point (delivered ++ queue ++ buffer = entered), DEALER pending queue (no loss/dup; order refuted, known finding), inproc accumulator; composed with the engine theorems into C01_end_to_end (received is a prefix of accepted at every moment and equal at quiescence). Tie: real EgressBuffer/EgressDriver and IngressDriver through facades, 168 logged batch-assembly transitions from real sessions replayed on the model, and real socket pairs (PUSH/DEALER/ROUTER/REQ/REP x tcp/ipc/inproc x runtimes x option vectors x first-send timing) with per-sender sequence oracles.",
+   note="Trusted: as C03; TCP/ipc/fibre channels are FIFO and reliable (Section hypotheses); select! scheduling of stage activations is abstracted as any order; io_uring sessions are C20's. One defect repaired (carry-over top-up reorder), one recorded (DEALER pending queue).",
+   technique="Coq proof: list-transducer equations by induction over op sequences and schedules, composed; function-level, trace-validation and real-socket correspondence",
+   design="6/C01"),
+ "C02": dict(
+   text="Coq proofs for all histories and frame counts: the receiving engines (AnonymousIngressEngine, DEALER/ROUTER frame_recv_buffer) hand out exactly the concatenation of the popped batches, contiguous and in order, under any mix of recv/recv_multipart and attach/detach events; every send_multipart path puts MORE on all but the last frame and never truncates, so the peer's engine reassembles exactly one batch (via data_phase_delivers); exact panic conditions of FrameBatch (255-element VecU8) and the over-long-wire theorem (256+ frames => PeerError, nothing of the message delivered). Tie: op histories on the real FrameBatch and AnonymousIngressEngine, scripted single connections and multi-peer real-socket scenarios over tcp and inproc with (msg id, index, count) tags.",
+   note="Trusted: as C03; ReadyPipeQueue is modelled sequentially here (its interleavings are C08's). Defects repaired: cache cleared on deregister, recv_multipart ignoring the frame buffer, ROUTER flag normalisation; recorded: REQ/REP recv truncation, >255-frame panics (sender, ROUTER recv, inproc reader), PUSH part-wise spreading.",
+   technique="Coq proof: refinement of the ingress state machines to list concatenation, flag algebra, explicit Panic outcomes; differential + real-socket scenarios",
+   design="6/C02"),
+ "C08": dict(
+   text="Coq proofs over a small-step interleaving model of ReadyPipeQueue at the granularity of its atomic actions, for every program set, capacity and EVERY schedule of steps, cancellations and deregistrations: the invariant (queued/reserved/token accounting, FIFO), no stale pop, no underflow, exactly-once in per-pipe order, no lost wake-up at quiescence, deadlock freedom, pop completes in 5 own steps, cancel safety; a waker layer (which parked consumer is actually woken) with the refuted witness for pop() dropped after wake; WaitGroup::wait safe on every schedule (create-then-check). Tie: 25 schedule points in the real code, one OS thread per model thread, a baton scheduler replaying each schedule one atomic action at a time with real wakers, rows compared step by step; thorough enumerates all schedules of small programs.",
+   note="Trusted: as C03; fibre channels are linearizable FIFO queues; atomics are sequentially consistent; premise np <= ready capacity (documented requirement) is not discharged against MAX_CONNECTIONS. One defect repaired (WaitGroup lost wake-up), one recorded (wake-one + dropped pop).",
+   technique="Coq proof: inductive invariant over all interleavings of a small-step semantics; schedule-point replay correspondence (exhaustive for small programs)",
+   design="6/C08"),
+ "C18": dict(
+   text="Coq proofs relative to an ideal symbolic AEAD (Section hypotheses: open(seal)=Some, authenticity, length law): the record layer is an append-stable stepper (segmentation independence), every batch of any size decodes to the same frames at the peer (records chunked at 65519 bytes), for every sent sequence and EVERY unforged modified stream the receiver delivers exactly a prefix of the sent messages, whole, then errors (tamper prefix safety), emitted data bytes are length prefixes and seal outputs only, Noise sessions differ; refuted witnesses for heartbeats bypassing the record layer and for CURVE keys depending on static keys only. Tie: real CURVE and NOISE_XX engine pairs (real handshakes), generated batches up to 131100 bytes, all single and sampled double mutations of the record stream, heartbeat ticks, two sessions on equal static keys; the model side runs with a toy executable AEAD with the same 16-byte expansion.",
+   note="Trusted: as C04 plus the symbolic idealisation of dryoc's crypto_box / snow's ChaChaPoly (no claim about the primitives or side channels); no-forgery premise `unforged` on attacker streams. One defect repaired (u16 record length wrap), two recorded.",
+   technique="Coq proof relative to an ideal symbolic AEAD: append-stable record stepper, lock-step counter induction over arbitrary unforged streams; differential correspondence on real CURVE/NOISE_XX engine pairs",
+   design="6/C18"),
 }
 NOT_APPLICABLE = {}
 
